@@ -644,6 +644,9 @@ func h5Sequential[T num, A arr[T, A]](k kit[T, A], rc *RunCtx, o *Outcome, ctl *
 						if w.Choose(15) == 14 {
 							n = e - l + 1 // does not fit
 						}
+						if !faults && w.Choose(40) == 39 {
+							n = 0 // an empty block: nothing to transfer
+						}
 						loc = append(loc, l)
 						shape = append(shape, n)
 					}
